@@ -30,6 +30,29 @@ def _diverges(block):
     return False
 
 
+def _pat_guards(scrut, pat, pol):
+    """guards expressed by `pat` matching (pol True) / not matching (pol False) `scrut`; a tuple pattern over a tuple expression
+    is split into one guard per element when it matched"""
+    sc = scrut
+    while sc.get("k") in ("paren", "ref"):
+        sc = sc["e"]
+    if pol and pat.get("k") == "p_tuple" and sc.get("k") == "tuple" and len(pat["elems"]) == len(sc["elems"]) and not any(e.get("k") == "p_rest" for e in pat["elems"]):
+        out = []
+        for pe, ee in zip(pat["elems"], sc["elems"]):
+            while pe.get("k") == "p_ref":
+                pe = pe["pat"]
+            if pe.get("k") == "p_wild":
+                continue
+            if pe.get("k") == "p_lit" and pe["e"].get("t") == "bool":
+                out += _conj(ee, bool(pe["e"]["v"]))
+            elif pe.get("k") == "p_ident" and pe["name"] in ("true", "false") and not pe.get("sub"):
+                out += _conj(ee, pe["name"] == "true")
+            else:
+                out += _pat_guards(ee, pe, True)
+        return out
+    return [("pat", (scrut, sir.pat_str(pat)), pol)]
+
+
 def _conj(c, pol):
     """split `a && b` (pol True) / `a || b` (pol False) into atoms"""
     if c.get("k") == "paren":
@@ -39,7 +62,7 @@ def _conj(c, pol):
     if c.get("k") == "binary" and ((c.get("op") == "&&" and pol) or (c.get("op") == "||" and not pol)):
         return _conj(c["l"], pol) + _conj(c["r"], pol)
     if c.get("k") == "let":
-        return [("pat", (c["e"], sir.pat_str(c["pat"])), pol)]
+        return _pat_guards(c["e"], c["pat"], pol)
     return [("cond", c, pol)]
 
 
@@ -90,7 +113,7 @@ def guards_of(body):
             rec(n["e"], g)
             failed = []   # (pattern text, guard) of earlier guarded arms: a later arm with the same pattern runs only if that guard failed
             for a in n["arms"]:
-                ga = g + [("pat", (n["e"], sir.pat_str(a["pat"])), True)]
+                ga = g + _pat_guards(n["e"], a["pat"], True)
                 ps_ = sir.pat_str(a["pat"])
                 for fp, fg in failed:
                     if fp == ps_ or a["pat"].get("k") == "p_wild":
